@@ -191,6 +191,8 @@ def execute(program):
         w = ghost.RunWorld(build(program), script=script, horizon=60 if variant != 'again' else 120)
     finally:
         ghost.World.observe_names = None
+    w.lazy = True             # once the roots are fired the library alone decides how long the loop idles ...
+    w.use_idle_double()       # ... over a double of the fall-back's wait: an unbounded wait with tasks pending is a hang
     res = w.run()
     return w, res
 
@@ -203,6 +205,8 @@ def judge(program, w, res):
         return bad
     if w.capped:
         bad.append(('no-quiescence', 'not quiescent within %d loop iterations' % w.horizon))
+    if w.hung:
+        bad.append(('never:idle-forever', '%s: generator handlers are only stepped again if another thread wakes the loop' % w.hung))
     cancelled = {x[1] for x in log if x[0] == 'cancel'}
     parent = {x[1]: x[3] for x in log if x[0] == 'fire'}
     typ = {x[1]: x[2] for x in log if x[0] == 'fire'}
